@@ -32,8 +32,10 @@ def derive(case):
             val[t] = None if (f & 2) else case['pre'][t]
             continue
         reads = [val[d] for d in kids[t]]
-        if f & 3 or ((f & 4) and any(r is None for r in reads)):
+        if f & 3 or ((f & 32) and case['ctx'] % 2 == 1) or ((f & 4) and any(r is None for r in reads)):
             val[t] = None
+        elif f & 8:
+            val[t] = 999999
         else:
             val[t] = 1000 * t + case['ctx'] + sum(7 if r is None else r for r in reads)
     # instances the run must touch: requested objects and the parameters of expanded tasks
@@ -46,7 +48,7 @@ def derive(case):
         reach.add(i)
         if not cached(tid_of[i]):
             stack.extend(case['inst'][i][1])
-    mw = CPU if case['mw'] is None else case['mw']
+    mw = case.get('cpu', CPU) if case['mw'] is None else case['mw']
     return dict(n=n, kids=kids, tid_of=tid_of, req_tids=req_tids, cached=cached, closure=closure, val=val,
                 reach=reach, mw=mw)
 
@@ -55,7 +57,7 @@ def phase_case(case, rec):
     """the case as seen by one run_tasks call of a (possibly two-call) case"""
     import dagcase
     ph = dagcase.phases_of(case)[rec.get('phase', 0)]
-    return dict(case, req=ph['req'], bust=ph['bust'], ctx=ph['ctx'], sched=ph['sched'],
+    return dict(case, req=ph['req'], bust=ph['bust'], ctx=ph['ctx'], sched=ph['sched'], cof=ph.get('cof', case['cof']),
                 pre=dict(rec.get('store_before', case['pre'])))
 
 
@@ -64,7 +66,7 @@ def ref_plain(case):
     n = len(case['ty'])
     v = [None] * n
     for t in range(n):
-        v[t] = 1000 * t + case['ctx'] + sum(v[d] for d in case['kids'][t])
+        v[t] = 999999 if case['fl'][t] & 8 else 1000 * t + case['ctx'] + sum(v[d] for d in case['kids'][t])
     return v
 
 
@@ -79,7 +81,7 @@ def monitor(case, rec):
     serial = case['be'] == 'serial'
     returned = None
     if rec['returned'] is not None:
-        returned = [(t.k, v) for t, v in rec['returned'].items()]
+        returned = [(t.k, 999999 if v is None else v) for t, v in rec['returned'].items()]
 
     # ---- C11 termination
     if status.startswith('HANG'):
@@ -91,7 +93,7 @@ def monitor(case, rec):
     nt['C11'] = len(closure) >= 2
 
     # ---- C01
-    all_succeed = all(case['fl'][t] & 3 == 0 for t in closure)
+    all_succeed = all(case['fl'][t] & 3 == 0 and not ((case['fl'][t] & 32) and case['ctx'] % 2 == 1) for t in closure)
     plain = ref_plain(case)
     sound = bool(case['bust']) or all(case['pre'][t] == plain[t] for t in case['pre'] if t in closure)
     if all_succeed and sound and not status.startswith('HANG'):
@@ -256,6 +258,12 @@ def monitor(case, rec):
             ft = ev[first_fail_idx][1]
             if status != f'raised LabError {ft}':
                 viol['C10'].append(f'fail-fast run ended with {status!r}, expected LabError for task {ft}')
+            else:
+                cause = rec.get('lab_error_cause')
+                o = ev[first_fail_idx][2]
+                if cause is not None and o == 'exc' and case['fl'][ft] & 33 and not (
+                        cause[0] == 'ValueError' and f'task {ft} fails' in cause[1]):
+                    viol['C10'].append(f'LabError is not caused by the failing task\'s own exception: __cause__ is {cause[0]}({cause[1]!r})')
         elif not status.startswith('returned') and not status.startswith('HANG'):
             viol['C10'].append(f'no task failed but run ended with {status!r}')
     nt['C10'] = any_fail
